@@ -57,7 +57,9 @@ def build_arch(tree):
     from accelforge.frontend.arch import Arch, Compute, Container, Fork, Hierarchical, Memory, Toll
 
     def spatial(name, fans):
-        return [{"name": f"{name}_d{i}", "fanout": f} for i, f in enumerate(fans)]
+        # dimension names repeat across nodes (X, Y, ... as in tests/network/input_files): instance
+        # counts multiply per node, not per distinct dimension name
+        return [{"name": "XYZW"[i], "fanout": f} for i, f in enumerate(fans)]
 
     def mk(items):
         nodes = []
